@@ -65,14 +65,17 @@ FromList(F, red1, red2) == Normalize(SetUser(F, red1, red2), DefaultRedM, Defaul
 (***************************************************************************)
 (* Factors::strip: keeps the factors of the balanced carriers; COGEN       *)
 (* factors only with cogenerated electricity; A_NEPB factors only with     *)
-(* some non-EPB use; on-site electricity factors only with on-site         *)
-(* electricity production.                                                 *)
+(* some use that the balance books as non-EPB (IsOtherUse: any use or      *)
+(* auxiliary that is neither an EPB use nor a cogeneration input - e.g.    *)
+(* the auxiliaries of a system whose only consumption is cogeneration      *)
+(* fuel); on-site electricity factors only with on-site electricity        *)
+(* production.                                                             *)
 (***************************************************************************)
 SelectF(F, P(_)) == SelectSeq(F, P)
 Strip(F, C) ==
   LET crs == Avail(C)
       hasCgn == \E i \in Idx(C) : IsCgnPr(C[i])
-      hasNepb == \E i \in Idx(C) : IsNepbUse(C[i])
+      hasNepb == \E i \in Idx(C) : IsOtherUse(C[i])
       hasElOn == \E i \in Idx(C) : IsOnsitePr(C[i]) /\ CarrierOf(C[i]) = "ELECTRICIDAD"
       keep(f) == /\ f.cr \in crs
                  /\ (f.src # "COGEN" \/ hasCgn)
